@@ -545,13 +545,24 @@ func Run(r *ev.Run) {
 			r.Violation("list-parse:3", fmt.Sprintf("ParseConfigList: %v", err), nil)
 		} else {
 			before := []string{fmt.Sprintf("%+v", specs[0]), fmt.Sprintf("%+v", specs[1]), fmt.Sprintf("%+v", specs[2])}
-			for i := range specs {
-				specs[i].CipherSuites = append(specs[i].CipherSuites, ech.CipherSuite{KDF: 0x7777, AEAD: 0x7777})
-				specs[i].PublicName = append(specs[i].PublicName, 'x')
-				specs[i].PublicKey = append(specs[i].PublicKey, 0xff)
-				for j := i + 1; j < len(specs); j++ {
-					if got := fmt.Sprintf("%+v", specs[j]); got != before[j] {
-						r.Violation("parsed-specs-share-memory", fmt.Sprintf("after appending a suite to / editing spec %d of a parsed list, spec %d reads %s (was %s)", i, j, got, before[j]), nil)
+			listBefore := slices.Clone(list)
+			// (appends of 1 and of 100 elements: a field that is a window into the list with the rest of the list as spare capacity
+			// lets a long append reach the NEXT config; an append writes no element the holder can see, so the list it was parsed
+			// from is as it was, too)
+			for _, n := range []int{1, 100} {
+				for i := range specs {
+					specs[i].CipherSuites = append(specs[i].CipherSuites, slices.Repeat([]ech.CipherSuite{{KDF: 0x7777, AEAD: 0x7777}}, n)...)
+					_ = append(specs[i].PublicName, bytes.Repeat([]byte{'x'}, n)...)
+					_ = append(specs[i].PublicKey, bytes.Repeat([]byte{0xff}, n)...)
+					specs[i].CipherSuites = specs[i].CipherSuites[:len(specs[i].CipherSuites)-n]
+					for j := range specs {
+						if got := fmt.Sprintf("%+v", specs[j]); got != before[j] {
+							r.Violation("parsed-specs-share-memory", fmt.Sprintf("after appending %d element(s) to the suites, the public name and the public key of spec %d of a parsed list, spec %d reads %s (was %s)", n, i, j, got, before[j]), nil)
+						}
+					}
+					if !bytes.Equal(list, listBefore) {
+						r.Violation("parsed-specs-share-memory:input", fmt.Sprintf("after appending %d element(s) to the public name and the public key of spec %d (no element of them was written), the list they were parsed from reads %x (was %x)", n, i, list, listBefore), nil)
+						copy(list, listBefore)
 					}
 				}
 			}
